@@ -729,7 +729,7 @@ func (g *gworld) scenario(n int) {
 		all(pid, "y")
 		return pid
 	}
-	switch n % 14 {
+	switch n % 15 {
 	case 10: // bank MsgSend from the gov account for exactly the target's deposit; the target's deposit period then expires (refund)
 		g.opParams(m)
 		g.setCustoms(nil, 0)
@@ -755,6 +755,14 @@ func (g *gworld) scenario(n int) {
 		pid := g.voting(true, 4)
 		all(pid, "y")
 		run(4)
+	case 14: // a lone proposal whose message pays away exactly its OWN deposit (and one paying a single base unit): its deposit is
+		// refunded before the messages run, so the account is empty and the handler fails — FAILED, nothing moves
+		g.opParams(m)
+		g.setCustoms(nil, 0)
+		carrier(4, 1000, 0)
+		run(3)
+		carrier(5, 1, 0)
+		run(3)
 	case 13: // refused or harmless: MsgDeposit / MsgSubmitProposal from the gov account (FAILED since 45d0bc2), a spend larger than the
 		// balance (handler fails), a spend followed by a failing message (discarded), then everything is settled
 		g.opParams(m)
@@ -960,7 +968,7 @@ func (g *gworld) sequence(length int) {
 }
 
 func runGov(t *testing.T, out *hx.Out, rng *rand.Rand) {
-	nscen := 14
+	nscen := 15
 	nseq := hx.N(16, 150)
 	for i := 0; i < nscen; i++ {
 		g := newGWorld(t, out, rng)
